@@ -418,3 +418,81 @@ func Validate(k *Key) Validity {
 	}
 	return Valid
 }
+
+// LengthOffsets returns the offsets, within Encode(k), of every uint32 length prefix:
+// those of the top-level fields and those nested inside the principals list, the
+// option lists, the signature key and the signature of a certificate.
+func LengthOffsets(k *Key) []int {
+	var offs []int
+	out := sshwire.EncodeString([]byte(k.Type))
+	offs = append(offs, 0)
+	if k.Cert != nil {
+		offs = append(offs, len(out))
+		out = append(out, sshwire.EncodeString(k.Cert.Nonce)...)
+	}
+	m, mo := sshwire.Encode(materialLayout(k.PlainType()), k.materialValues())
+	for _, o := range mo {
+		offs = append(offs, len(out)+o)
+	}
+	out = append(out, m...)
+	c := k.Cert
+	if c == nil {
+		return offs
+	}
+	// nested walks: every element of these fields is itself a string
+	nestedStrings := func(base int, body []byte) {
+		for pos := 0; pos+4 <= len(body); {
+			offs = append(offs, base+pos)
+			l := int(body[pos])<<24 | int(body[pos+1])<<16 | int(body[pos+2])<<8 | int(body[pos+3])
+			pos += 4 + l
+		}
+	}
+	nestedOptions := func(base int, opts []Option) {
+		pos := 0
+		for _, o := range opts {
+			offs = append(offs, base+pos) // name
+			pos += 4 + len(o.Name)
+			offs = append(offs, base+pos) // data
+			if o.Value != "" {
+				offs = append(offs, base+pos+4) // inner string
+				pos += 4 + 4 + len(o.Value)
+			} else {
+				pos += 4
+			}
+		}
+	}
+	vals := []sshwire.Value{
+		{U: c.Serial}, {U: uint64(c.CertType)}, {B: []byte(c.KeyID)}, {B: encodeStrings(c.Principals)},
+		{U: c.ValidAfter}, {U: c.ValidBefore}, {B: encodeOptions(c.CriticalOptions)}, {B: encodeOptions(c.Extensions)},
+		{B: c.Reserved}, {B: c.SignatureKey}, {B: c.Signature}}
+	_, to := sshwire.Encode(certTailLayout, vals)
+	base := len(out)
+	// to: key id, principals, critical options, extensions, reserved, signature key, signature
+	for _, o := range to {
+		offs = append(offs, base+o)
+	}
+	nestedStrings(base+to[1]+4, vals[3].B)
+	nestedOptions(base+to[2]+4, c.CriticalOptions)
+	nestedOptions(base+to[3]+4, c.Extensions)
+	if sk, err := Decode(c.SignatureKey); err == nil {
+		for _, o := range LengthOffsets(sk) {
+			offs = append(offs, base+to[5]+4+o)
+		}
+	}
+	if sv, err := sshwire.Decode(fs(sshwire.String, sshwire.String, sshwire.Rest), c.Signature); err == nil {
+		offs = append(offs, base+to[6]+4, base+to[6]+4+4+len(sv[0].B))
+	}
+	return offs
+}
+
+// SignedBytes returns the part of a certificate blob that the CA signs
+// (PROTOCOL.certkeys: "signature is computed over all preceding fields from the initial
+// string up to, and including the signature key").
+func SignedBytes(k *Key) []byte {
+	c := *k.Cert
+	c.Signature = nil
+	kk := *k
+	kk.Cert = &c
+	b := Encode(&kk)
+	return b[:len(b)-4] // drop the (empty) signature field
+}
